@@ -23,14 +23,18 @@ pub enum Prior {
     /// A complete version, then a backup killed while writing its BANDHEAD, leaving the band
     /// directory with an empty head file (the band exists but cannot be opened).
     CompleteThenTornHead,
+    /// A complete version and two interrupted ones on top of each other: the older of the two
+    /// got far, the newer stopped early, so the newer one's listing passes through both.
+    CompleteThenTwoInterrupted,
 }
 
-pub const PRIORS: [Prior; 5] = [
+pub const PRIORS: [Prior; 6] = [
     Prior::Empty,
     Prior::OneComplete,
     Prior::CompleteThenInterrupted,
     Prior::TwoComplete,
     Prior::CompleteThenTornHead,
+    Prior::CompleteThenTwoInterrupted,
 ];
 
 pub struct Scenario {
@@ -123,6 +127,37 @@ pub fn build(seed: u64, case: u64, tag: &str) -> Scenario {
             let r = w.interrupted_backup(opts, k, n, true);
             desc.push_str(&format!(" [prior killed while writing its BANDHEAD (op {k}/{n}): empty head file, header={}]", r.new_band.is_some()));
             w.mutate(&mut rng, 3);
+        }
+        Prior::CompleteThenTwoInterrupted => {
+            // /zrevert as in TwoComplete: A at T1 in the complete version, B at T2 in the first
+            // interrupted one (which gets as far as recording it), C with A's size and mtime now
+            let put = |w: &mut World, content: &[u8], t: i64| {
+                let mut spec = w.spec.clone();
+                spec.retain(|p, _| !p.starts_with("/zrevert/"));
+                let mut n = crate::tree::Node::file(content.to_vec());
+                n.mtime_s = t;
+                spec.insert("/zrevert".into(), n);
+                w.set_spec(spec);
+            };
+            put(&mut w, &[b'A'; 70], 1_590_000_000);
+            let r = w.backup(opts);
+            assert!(r.backup.as_ref().unwrap().ok(), "prior backup failed");
+            w.mutate(&mut rng, 3);
+            put(&mut w, &[b'B'; 85], 1_590_000_500);
+            let trace = w.measure_trace(opts);
+            let n = trace.len();
+            // killed before its tail is written: everything recorded, not closed
+            let k1 = trace.iter().rev().find(|e| e.verb == V::Write && e.path.ends_with("BANDTAIL")).map(|e| e.idx).unwrap_or(n.saturating_sub(1));
+            let r1 = w.interrupted_backup(opts, k1, n, false);
+            w.mutate(&mut rng, 2);
+            let trace = w.measure_trace(opts);
+            let n2 = trace.len();
+            // killed right after its first hunk
+            let k2 = trace.iter().find(|e| e.verb == V::Write && crate::props::c03::path_class(&e.path) == "hunk").map(|e| e.idx + 1).unwrap_or(n2 / 2);
+            let r2 = w.interrupted_backup(opts, k2, n2, false);
+            desc.push_str(&format!(" [two interrupted priors: killed at {k1}/{n} (header={}) and {k2}/{n2} (header={})]", r1.new_band.is_some(), r2.new_band.is_some()));
+            w.mutate(&mut rng, 2);
+            put(&mut w, &[b'C'; 70], 1_590_000_000);
         }
         Prior::TwoComplete => {
             // /zrevert: content A at time T1 in the first version, longer content B at T2 in the
